@@ -688,3 +688,48 @@ _MIMIC_COPY = lambda n: isinstance(n, ast.For) and "__dict__" in U(n.iter)  # no
 brk("c18_mimic_overwrites_wrapper_state", [E("utils.mimic.mimic_function.mimic", _MIMIC_COPY, to("target.__dict__.update(function.__dict__)"))], {"C18": ["C18.7"], "C12": ["C12.8"], "C13": ["C13.10"], "C15": ["C15.6"], "C16": ["C16.7"]})
 for _c in ("__call__", "__method_call__"):
     brk(f"c13_key_reduced_to_its_hash_{_c}", [E(f"helpers.caching._AsyncCache.{_c}", lambda n: isinstance(n, ast.AnnAssign) and U(n.target) == "key", lambda s: s.replace("_make_key(", "hash(_make_key(", 1).rstrip() + ")")], {"C13": ["C13.9"], "C12": ["C12.1"]})
+
+# =============================================================================================== round 10 additions
+_COMPLETION_TRY = lambda n: isinstance(n, ast.Try) and "task.result()" in U(n)  # noqa: E731
+_OC = f"{TO}.on_completion"
+brk("c16_base_exception_turned_into_cancellation", [E(_OC, _COMPLETION_TRY, to("try:" + NL + "    result = task.result()" + NL + "except Exception as exc:" + NL + "    future.set_exception(exc)" + NL + "except BaseException:" + NL + "    future.cancel()" + NL + "else:" + NL + "    future.set_result(result)"))], {"C16": ["C16.2"]})
+ben("c16_cancellation_read_from_result", [E(_OC, _COMPLETION_TRY, to("try:" + NL + "    result = task.result()" + NL + "except CancelledError:" + NL + "    future.cancel()" + NL + "except BaseException as exc:" + NL + "    future.set_exception(exc)" + NL + "else:" + NL + "    future.set_result(result)")), E("mod:helpers.timeouted", lambda n: isinstance(n, ast.ImportFrom) and n.module == "asyncio", after("from asyncio import CancelledError"))], ["C16"])
+ben("c16_timer_callback_tests_cancelled", [E(f"{TO}.on_timeout", lambda n: isinstance(n, ast.If) and "future.done()" in U(n.test), lambda s: s.replace("future.done()", "future.cancelled()", 1))], ["C16"])
+brk("c16_timer_callback_tests_cancelled_with_timer_left_armed", [E(f"{TO}.on_timeout", lambda n: isinstance(n, ast.If) and "future.done()" in U(n.test), lambda s: s.replace("future.done()", "future.cancelled()", 1)), E(_OC, stmt("timeout_handle.cancel()"), PASS)], {"C16": ["C16.3", "C16.5"]})
+_THLOCK = lambda n: isinstance(n, ast.AsyncWith) and "self._lock" in U(n.items[0])  # noqa: E731
+ben("c15_start_recorded_right_after_release", [E(TH, stmt("self._entries.append(monotonic())"), PASS), E(TH, _THLOCK, after("self._entries.append(monotonic())"))], ["C15"])
+brk("c15_start_recorded_after_a_suspension_outside_the_lock", [E(TH, stmt("self._entries.append(monotonic())"), PASS), E(TH, _THLOCK, after("await sleep(0)" + NL + "self._entries.append(monotonic())"))], {"C15": []})
+_SC_EXIT_TRY = lambda n: isinstance(n, ast.Try)  # noqa: E731
+ben("c02_exit_details_as_one_tuple", [E(f"{SC}.__exit__", _SC_EXIT_TRY, lambda s: "details = (exc_type, exc_val, exc_tb)" + NL + s.replace("exc_type=exc_type,", "*details,").replace("exc_val=exc_val,", "").replace("exc_tb=exc_tb,", ""))], ["C02", "C01", "C09"])
+brk("c02_exit_details_tuple_of_nones", [E(f"{SC}.__exit__", _SC_EXIT_TRY, lambda s: "details = (None, None, None)" + NL + s.replace("exc_type=exc_type,", "*details,").replace("exc_val=exc_val,", "").replace("exc_tb=exc_tb,", ""))], {"C02": ["C02.6"]})
+ben("c20_not_missing_as_negated_identity", [E(f"{MT}.not_missing", lambda n: isinstance(n, ast.Return), to("return not check is MISSING"))], ["C20"])
+for _c in ("_SyncCache", "_AsyncCache"):
+    ben(f"c12_eviction_by_first_key_{_c}", [E(f"helpers.caching.{_c}.__call__", stmt("self._cached.popitem(last=False)"), to("del self._cached[next(iter(self._cached))]"))], ["C12", "C13"])
+    brk(f"c12_eviction_by_last_key_{_c}", [E(f"helpers.caching.{_c}.__call__", stmt("self._cached.popitem(last=False)"), to("del self._cached[next(reversed(self._cached))]"))], {"C12": []})
+    ben(f"c12_eviction_order_as_named_constant_{_c}", [E("mod:helpers.caching", _CACHE_CLS, before("_OLDEST_FIRST = False" + NL + NL)), E(f"helpers.caching.{_c}.__call__", stmt("self._cached.popitem(last=False)"), to("self._cached.popitem(last=_OLDEST_FIRST)"))], ["C12", "C13"])
+    brk(f"c12_eviction_order_constant_wrong_{_c}", [E("mod:helpers.caching", _CACHE_CLS, before("_OLDEST_FIRST = True" + NL + NL)), E(f"helpers.caching.{_c}.__call__", stmt("self._cached.popitem(last=False)"), to("self._cached.popitem(last=_OLDEST_FIRST)"))], {"C12": ["C12.4"]})
+ben("c04_init_pops_its_kwargs", [E(f"{STS}.__init__", lambda n: isinstance(n, ast.Call) and U(n.func) == "kwargs.get", lambda s: s.replace("kwargs.get", "kwargs.pop", 1))], ["C04", "C05"])
+ben("c03_token_resets_its_own_variable", [E("context.state.StateContext.__exit__", stmt("StateContext._context.reset(self._token)"), to("self._token.var.reset(self._token)"))], ["C01", "C02", "C03"])
+_TG_TRY = lambda n: isinstance(n, ast.Try) and "self._group.__aexit__" in U(n)  # noqa: E731
+brk("c07_group_exit_with_except_star", [E(f"{TGC}.__aexit__", _TG_TRY, lambda s: s.replace("except CancelledError:", "except* CancelledError:").replace("except BaseException:", "except* BaseException:"))], {"C07": ["C07.1"]})
+_SLOG_EMIT = lambda n: isinstance(n, ast.Expr) and "self._logger.log" in U(n)  # noqa: E731
+_TWO_EMITS = "if args:" + NL + "    self._logger.log(level, f\"{{self._logger_prefix.replace('%', '%%')}} {{message}}\", *args, exc_info=exception)" + NL + "else:" + NL + "    self._logger.log(level, {plain}, exc_info=exception)"
+ben("c19_one_emission_per_branch", [E(f"{SMx}.log", stmt("prefix"), PASS), E(f"{SMx}.log", _SLOG_EMIT, to(_TWO_EMITS.format(plain="f\"{self._logger_prefix} {message}\"")))], ["C19"])
+brk("c19_plain_branch_without_tag", [E(f"{SMx}.log", stmt("prefix"), PASS), E(f"{SMx}.log", _SLOG_EMIT, to(_TWO_EMITS.format(plain="message")))], {"C19": ["C19.5"]})
+for _c in ("_SyncCache", "_AsyncCache"):
+    _edits = lambda stamp, _c=_c: [  # noqa: E731
+        E(f"helpers.caching.{_c}.__init__", lambda n: isinstance(n, ast.If) and "expiration" in U(n.test), to("self._expiration: float = expiration or 0.0")),
+        E(f"helpers.caching.{_c}.__init__", stmt("self._next_expire_time"), PASS),
+        E(f"helpers.caching.{_c}.__call__", lambda n: isinstance(n, ast.Call) and U(n) == "self._next_expire_time()", to(stamp)),
+        E(f"helpers.caching.{_c}.__method_call__", lambda n: isinstance(n, ast.Call) and U(n) == "self._next_expire_time()", to(stamp)),
+    ]
+    ben(f"c12_stamp_written_at_the_store_{_c}", _edits("(monotonic() + self._expiration if self._expiration else None)"), ["C12", "C13"])
+    brk(f"c12_stamp_written_at_the_store_without_expiration_{_c}", _edits("(monotonic() if self._expiration else None)"), {"C12": ["C12.5"]} if _c == "_SyncCache" else {"C12": ["C12.5"], "C13": ["C13.6"]})
+_INIT_STORE = lambda n: isinstance(n, ast.Expr) and U(n).startswith("object.__setattr__")  # noqa: E731
+_VALIDATED_INLINE = "value = kwargs.get(name, MISSING)" + NL + "if value is MISSING:" + NL + "    value = {dflt}" + NL + "object.__setattr__(self, name, attribute.validator(value))"
+ben("c05_validated_written_out", [E(f"{STS}.__init__", _INIT_STORE, to(_VALIDATED_INLINE.format(dflt="attribute.default")))], ["C05", "C04"])
+brk("c05_validated_written_out_without_default", [E(f"{STS}.__init__", _INIT_STORE, to(_VALIDATED_INLINE.format(dflt="None")))], {"C05": ["C05.1"], "C04": ["C04.9"]})
+ben("c10_record_rebinds_metric", [E(f"{SMx}.record", lambda n: isinstance(n, ast.If) and "current" in U(n.test), to("if (current := self._metrics.get(metric_type)) is not None:" + NL + "    metric = merge(cast(Metric, current), metric)" + NL + "self._metrics[metric_type] = metric"))], ["C10"])
+_STREAM_GEN = lambda n: isinstance(n, ast.AsyncFunctionDef) and n.name == "generator"  # noqa: E731
+brk("c11_stream_body_takes_named_parameters", [E("mod:context.access", lambda n: isinstance(n, ast.ClassDef) and n.name == "ctx", before("async def _stream_within(scope, source, *args, **kwargs):" + NL + "    async with scope:" + NL + "        async for result in source(*args, **kwargs):" + NL + "            yield result" + NL + NL)), E("context.access.ctx.stream", _STREAM_GEN, PASS), E("context.access.ctx.stream", lambda n: isinstance(n, ast.Return) and "context_snapshot.run" in U(n), to("return context_snapshot.run(_stream_within, streaming_context, source, *args, **kwargs)"))], {"C11": ["C11.10"], "C18": ["C18.1"]})
+_QUOTA = "class _Quota(NamedTuple):" + NL + "    limit: int" + NL + "    period: float" + NL + NL + NL
